@@ -8,6 +8,23 @@
 
   Python `dict`s inside a file are association lists in *file order* (the order
   in which the loader iterates); keys are unique in a well-formed file.
+
+  Reference counts and `dd.autoref`: a `Function` is one reference on its node
+  (`Function.__init__` increfs, `__del__` decrefs; CPython releases a temporary as soon
+  as its last name goes away).  `wrap` / `drop` are those two events; `withTemps` releases
+  the temporaries of a Python frame when the frame is left, normally or by an exception.
+  Every temporary the real code makes during `load_json` is modelled (it matters when a
+  reordering — hence a collection — happens in the middle of `bdd.var` / `bdd.ite`), so the
+  net effect is exact: after `loadJson` every made node has had `+1` (`bdd.incref` in
+  `_make_node`) and `-1` (`bdd.decref` in the final loop), every temporary `+1`/`-1`, and
+  each returned root keeps the `+1` of its live `Function`.  `dd.bdd.BDD.load` (pickle)
+  returns plain integers: nothing is held; the `dd.autoref` wrapper holds `+1` per root.
+
+  Defects of the current code that the model reproduces (see DDProps/C12.lean):
+  F2 `roots=None` cannot be mapped by `load` (`TypeError`); F11 a constant root is not in
+  `umap` (`KeyError`); F3 `levels=False` builds nodes with `find_or_add` at mapped levels
+  (unordered diagram when the map is not increasing); F10 `load_json(load_order=True)`
+  always leaves dynamic reordering enabled.
 -/
 import DD.Apply
 open Std
